@@ -611,3 +611,74 @@ package kcache
   loop 1 inv [initialized-once] (and (= ninit 1) (>= ncb 1) (= lc 0))
   loop 1 inv [every-received-event-was-dispatched] (not evPending)
 @*/
+
+/*@ neverclosed kcache._cache.syncch kcache._cache.updatech kcache._cache.refilterch kcache._cache.listch kcache._cache.getch
+@*/
+/*@ theory cachereq
+;; theory sync lists
+;; uses kcache.syncRequest kcache.updateRequest kcache.refilterRequest kcache.getRequest
+(define-fun listNonNil ((l (Slice V))) Bool (forall ((j Int)) (=> (and (<= 0 j) (< j (slen l))) (not (= (select (sarr l) j) vnil)))))
+@*/
+/*@ chaninv kcache._cache.syncch
+  theory cachereq
+  requires (and (not (= (|kcache.syncRequest.resultch| $val) vnil)) (listNonNil (|kcache.syncRequest.list| $val)))
+@*/
+/*@ chaninv kcache._cache.updatech
+  theory cachereq
+  requires (and (not (= (|kcache.updateRequest.resultch| $val) vnil)) (not (= (|kcache.updateRequest.evt| $val) vnil))
+                (not (= (evt-res (|kcache.updateRequest.evt| $val)) vnil)))
+@*/
+/*@ chaninv kcache._cache.refilterch
+  theory cachereq
+  requires (and (not (= (|kcache.refilterRequest.resultch| $val) vnil)) (not (= (|kcache.refilterRequest.filter| $val) vnil))
+                (listNonNil (|kcache.refilterRequest.list| $val)))
+@*/
+/*@ chaninv kcache._cache.listch
+  requires (not (= $val vnil))
+@*/
+/*@ chaninv kcache._cache.getch
+  theory cachereq
+  requires (not (= (|kcache.getRequest.resultch| $val) vnil))
+@*/
+
+/*@ func (*kcache._cache).run
+  props C15 C01 C12
+  theory cachereq
+  requires [valid-c] (and (not (= {c} vnil)) (not (= {c.items} vnil)) (not (= {c.filter} vnil)) (not (= {c.log} vnil)) (not (= {c.lc} vnil))
+        (not (= {c.syncch} vnil)) (not (= {c.updatech} vnil)) (not (= {c.refilterch} vnil)) (not (= {c.listch} vnil)) (not (= {c.getch} vnil)))
+  requires [wf] (WFitems {dom(c.items)} {val(c.items)})
+  requires [has-closed-nothing] (forall ((x V)) (not (select $closed x)))
+  modifies c.items[] c.filter
+  ghost nreq : Int := 0
+  ghost nreply : Int := 0
+  ghost lc : Int := 0
+  ghost lastEvents : (Slice V) := seq-empty
+  ghost lastObjs : (Slice V) := seq-empty
+  ghost lastKey : Key := (|mk!kcache.cacheKey| |str!| |str!|)
+  ghost kind : Int := 0
+  at recv(syncch) set kind := 1
+  at recv(updatech) set kind := 2
+  at recv(refilterch) set kind := 3
+  at recv(listch) set kind := 4
+  at recv(getch) set kind := 5
+  at recv(getch) set lastKey := (|kcache.getRequest.key| $val)
+  at recv(ShutdownRequest) set kind := 6
+  at recv() set nreq := (+ nreq 1)
+  at call(doSync).after set lastEvents := $result
+  at call(doUpdate).after set lastEvents := $result
+  at call(doRefilter).after set lastEvents := $result
+  at call(doList).after set lastObjs := $result
+  at send() assert [answers-the-current-request-once] (= nreply (- nreq 1))
+  at send() set nreply := (+ nreply 1)
+  at send()#1 assert [reply-is-the-result-of-this-request] (= $val lastEvents)
+  at send()#2 assert [reply-is-the-result-of-this-request] (= $val lastEvents)
+  at send()#3 assert [reply-is-the-result-of-this-request] (= $val lastEvents)
+  at send()#4 assert [reply-is-a-fresh-snapshot] (= $val lastObjs)
+  at send()#5 assert [get-returns-the-cached-object] (and (select {dom(c.items)} lastKey) (= $val (eobj (select {val(c.items)} lastKey))))
+  at send()#6 assert [get-returns-nil-for-an-absent-key] (and (not (select {dom(c.items)} lastKey)) (= $val vnil))
+  at call(ShutdownInitiated) assert [shutdown-initiated-once] (= lc 0)
+  at call(ShutdownInitiated) set lc := 1
+  at call(ShutdownCompleted) assert [after-shutdown-initiated] (= lc 1)
+  loop 1 inv [representation] (and (WFitems {dom(c.items)} {val(c.items)}) (not (= {c.filter} vnil)) (not (= {c.items} vnil)))
+  loop 1 inv [every-request-answered-exactly-once] (and (= nreply nreq) (= lc 0))
+@*/
